@@ -224,7 +224,20 @@ class Ctx:
 
 def _run(body, prefix, stats, bound):
     ctx = Ctx(prefix, stats, bound)
-    body(ctx)
+    try:
+        body(ctx)
+    except (HarnessError, ReplayDivergence):
+        raise
+    except Exception as e:  # noqa
+        # an exception escaping the body comes from the implementation under test (the harness guards its own
+        # logic; a harness bug would show on the unchanged tree and be fixed there): it is a verdict, not a crash.
+        # The case is the execution itself; --replay re-executes the recorded choices.
+        ctx.failures.append({"clause": "raised-during-execution", "case": {"kind": "execution"},
+                             "detail": jsonable({"exception": repr(e), "traceback": traceback.format_exc()[-1500:]}),
+                             "key": {"exc": type(e).__name__}})
+        if len(ctx.choices) < len(prefix):
+            raise ReplayDivergence("execution raised %r after %d choices, prefix has %d" % (e, len(ctx.choices), len(prefix)))
+        return ctx
     if len(ctx.choices) < len(prefix):
         raise ReplayDivergence("execution ended after %d choices, prefix has %d" % (len(ctx.choices), len(prefix)))
     return ctx
